@@ -30,7 +30,9 @@ def gen_cases(tier, seed, configs):
             body.append("build bs=%d mode=%d" % (bs, mode) + (" auto=1 threads=HW" if auto else "") + (" env=%d" % env if env is not None else ""))
             if r.random() < 0.3:
                 body.append("rebuild")       # the grouping as TbfTree::rebuild() reproduces it (nothing moved)
-            body.append("exec seq flags=63 upper=%d" % upper)
+            # "all executors": a third of the groupings are run by a task-based executor under its mock runtime
+            ex = r.choice(["seq", "seq", "seq", "seq", "omp", "starpu", "specx"]) if gi > 0 else "seq"
+            body.append("exec %s flags=63 upper=%d" % (ex, upper) + (" sched=%d seed=%d workers=%d" % (r.choice([0, 1, 2, 3]), r.randrange(1, 10 ** 6), r.choice([1, 2, 4, 8])) if ex != "seq" else ""))
             body.append("dump values")
         c = corefam.make_case("c08-%d" % k, D, H, periodic, parts, 1, 0, ["spec elems flags=63 upper=%d" % upper] + body,
                               {"kind": kind, "upper": upper, "groupings": groupings})
@@ -93,6 +95,6 @@ def evaluate(res):
 
 
 def run(rep, tier, seed, replay, proof_ok, proof_msg):
-    corefam.standard_run(rep, tier, seed, replay, proof_ok, proof_msg, gen_cases, evaluate)
+    corefam.standard_run(rep, tier, seed, replay, proof_ok, proof_msg, gen_cases, evaluate, omp=True, starpu=True)
     rep.assumptions += ["bs <= 0 (reachable through TBFMM_BLOCK_SIZE=0) is outside the property's quantifier and not exercised",
                         "automatic block size: modelled (autoBlockSize: distinct occupied leaves / (2 x hardware threads), at least 1; TBFMM_BLOCK_SIZE overrides); the number of hardware threads is read from the machine"]
